@@ -273,33 +273,42 @@ def main(argv=None):
                           'wall_s': r['wall_s'], 'claims': r['claims'],
                           'obligations': r['obligations'], 'failures': len(r['failures'])})
         # ---- counterexamples: replay against the real code ----------------
-        for fi, fail in enumerate(r['failures']):
-            if not fail.get('values'):
-                inconclusive.append(f"{label}: {fail['kind']} {fail['name']} without a model")
-                continue
-            tag = hashlib.sha1((label + fail['kind'] + fail['name']).encode()).hexdigest()[:10]
-            rr = replay_one(r['harness'], r['func'], r['params'], fail['values'], t['opts'],
-                            workdir, tag)
-            ok, obs = confirms(fail, rr)
-            if not ok:
+        # several candidates (from different paths) may exist per claim /
+        # obligation: the first one that reproduces is reported
+        groups = {}
+        for fail in r['failures']:
+            groups.setdefault((fail['kind'], fail['name']), []).append(fail)
+        for (fkind, fname), fails in groups.items():
+            confirmed = False
+            for fi, fail in enumerate(fails):
+                if not fail.get('values'):
+                    continue
+                tag = hashlib.sha1((label + fkind + fname).encode()).hexdigest()[:10]
+                rr = replay_one(r['harness'], r['func'], r['params'], fail['values'], t['opts'],
+                                workdir, f'{tag}-{fi}')
+                ok, obs = confirms(fail, rr)
+                if not ok:
+                    continue
+                confirmed = True
+                key = finding_key(r['func'], fail)
+                kf = [k for k in known if k['status'] == 'known' and key.startswith(k['key'])]
+                rec = {'property': pid, 'module': r['harness'], 'func': r['func'],
+                       'params': r['params'], 'values': fail['values'], 'opts': t['opts'],
+                       'failure': {'kind': fail['kind'], 'name': fail['name'],
+                                   'detail': fail.get('detail')},
+                       'observed': obs, 'key': key,
+                       'replay_cmd': f'./check --replay replays/{pid}-{tag}.json'}
+                if kf:
+                    known_hits.append((kf[0], key))
+                    break
+                rp = os.path.join(REPLAY_DIR, f'{pid}-{tag}.json')
+                json.dump(rec, open(rp, 'w'), indent=1, default=str)
+                violations.append((rp, key, obs))
+                break
+            if not confirmed:
                 inconclusive.append(
-                    f"{label}: solver counterexample for {fail['kind']} {fail['name']} "
-                    f"does not reproduce on the real code")
-                continue
-            key = finding_key(r['func'], fail)
-            kf = [k for k in known if k['status'] == 'known' and key.startswith(k['key'])]
-            rec = {'property': pid, 'module': r['harness'], 'func': r['func'],
-                   'params': r['params'], 'values': fail['values'], 'opts': t['opts'],
-                   'failure': {'kind': fail['kind'], 'name': fail['name'],
-                               'detail': fail.get('detail')},
-                   'observed': obs, 'key': key,
-                   'replay_cmd': f'./check --replay replays/{pid}-{tag}.json'}
-            if kf:
-                known_hits.append((kf[0], key))
-                continue
-            rp = os.path.join(REPLAY_DIR, f'{pid}-{tag}.json')
-            json.dump(rec, open(rp, 'w'), indent=1, default=str)
-            violations.append((rp, key, obs))
+                    f"{label}: solver counterexample for {fkind} {fname} "
+                    f"does not reproduce on the real code ({len(fails)} candidate(s) replayed)")
 
     # ---- report -----------------------------------------------------------
     for kf, key in known_hits:
